@@ -83,7 +83,7 @@ def _ob(entry, op, kind="io", st=1, thread=2, bs=0, tv=False, **kw):
     name = "%s_%s_%s_st%d_t%d%s" % (entry, op.lower(), kind, st, thread, "" if bs == 0 else "_base%d" % bs)
     defs = ["C09_OP=%d" % OPN[op], "C09_KIND=%d" % KN[kind], "C09_ST=%d" % st, "C09_THREAD=%d" % thread, "C09_BASE=%d" % bs]
     if tv: defs.append("C09_USE_TV")
-    defs += ["C09_MODE=%d" % (1 if entry == "wakeup" else 2), "C09_EXPECT=%d" % _expect(entry, op, kind, st, thread, bs)]
+    defs += ["C09_MODE=%d" % (1 if entry == "wakeup" else 3 if entry == "delwait_spurious" else 2), "C09_EXPECT=%d" % _expect(entry, op, kind, st, thread, bs)]
     d = dict(name=name, harness="C09_xthread.c", entry="harness_" + entry, sources=[], defines=defs, unwind=6,
              instrument=_pins(), timeout=600, mem_gb=4, cbmc=["--object-bits", "10", "--no-standard-checks"],
              desc="%s: %s on a %s event (state %d) by thread %d%s" % (entry, op, kind, st, thread, "" if bs == 0 else ", base variant %d" % bs))
@@ -122,8 +122,13 @@ def obligations(tier):
         obs.append(_ob(D, "ACTIVE", "sig", 2, th))
     obs.append(_ob(D, "ADD", "io", 2, 2))
     obs.append(_ob(D, "ACTIVE", "io", 2, 2))
+    # known finding: a spurious condition wake-up (POSIX allows it) lets event_del return while the callback still runs;
+    # the ordinary delwait obligations above are the KF_EXCLUDE side (assumption: no spurious wake-ups)
+    for op in ("DEL", "DEL_BLOCK"):
+        obs.append(_ob("delwait_spurious", op, "io", 2, 2, expect_fail=["condition wait woke up spuriously and is not re-checked"],
+                       known_finding="KF-C09-spurious-wakeup"))
     if tier != "quick":
         for o in list(obs):
-            if o["name"].startswith("delwait_del") or "_add_" in o["name"]:
+            if (o["name"].startswith("delwait_del") or "_add_" in o["name"]) and not o.get("known_finding"):
                 n = dict(o); n["name"] += "_ndebug"; n["ndebug"] = True; n["desc"] += " (NDEBUG build)"; obs.append(n)
     return obs
